@@ -374,17 +374,21 @@ def explain_preserve(name, ev):
                 continue
             cands = [q for q in O["ops"] if q["code"] == o["code"] and q["outs"] == o["outs"]]
             if len(same) > 1:
-                return "KeptOnce|%s|duplicated" % o["code"], "operator producing %s appears %d times" % (o["outs"], len(same))
+                return "KeptOnce|duplicated|%s" % o["code"], "operator producing %s appears %d times" % (o["outs"], len(same))
             if not cands:
                 # dead and foldable operators are exempt; TLC decided this one is neither
                 continue
             diff = [f for f in ("ver", "opts", "copt", "ins", "cdat") if cands[0][f] != o[f]]
-            return ("KeptOnce|%s|%s" % (o["code"], ",".join(diff)),
+            tag = ",".join(diff)
+            if diff == ["ver"]:      # which version did it get: the highest one used by this operator type, or another
+                hi = max(q["ver"] for q in S["ops"] if q["code"] == o["code"])
+                tag = "ver=highest-of-type" if cands[0]["ver"] == hi else "ver=other"
+            return ("KeptOnce|%s|%s" % (tag, o["code"]),
                     "operator producing %s changed in %s: %s -> %s" % (o["outs"], diff, {f: o[f] for f in diff},
                                                                       {f: cands[0][f] for f in diff}))
         for i, o in enumerate(S["ops"], 1):
             if i not in absorbed and not [q for q in O["ops"] if q["code"] == o["code"] and q["outs"] == o["outs"]]:
-                return "KeptOnce|%s|missing" % o["code"], "source operator producing %s is neither kept nor absorbed" % o["outs"]
+                return "KeptOnce|missing|%s" % o["code"], "source operator producing %s is neither kept nor absorbed" % o["outs"]
     if name == "OutTopo":
         prod = {}
         for j, o in enumerate(O["ops"]):
